@@ -114,8 +114,14 @@ type vhHostile struct {
 	// NoRead (streams): the peer sends a VALID join request (built with the real encoder) followed by Bytes and then
 	// never reads the reply: the handler must give up at its stream timeout, not block in its write for ever
 	NoRead bool `json:"noread"`
+	// JoinCut > 0 (streams): a VALID join request (header, a delta introducing node "ghost" with two entries, a digest) built
+	// with the real encoder, of which only the first JoinCut bytes are sent before the peer closes
+	JoinCut int `json:"joincut"`
 }
 type vhHostileOut struct {
+	Known   int  `json:"known"`    // remote nodes the receiver knows afterwards
+	JoinLen int  `json:"join_len"` // length of the complete join request (JoinCut cases)
+	Replied bool `json:"replied"`  // the handler wrote a reply
 	ID        string         `json:"id"`
 	Panic     string         `json:"panic"`
 	Timeout   bool           `json:"timeout"`
@@ -172,12 +178,36 @@ func vhRunHostile(hc vhHostile) (out vhHostileOut) {
 				ch <- res{err: me.sl.handleConn(c2)}
 				return
 			}
+			if hc.JoinCut > 0 {
+				var req bytes.Buffer
+				req.WriteByte(byte(messageTypeJoin))
+				req.WriteByte(supportedVersion)
+				enc := newEncoder(&req)
+				_ = enc.Encode(&joinHeader{NodeID: "ghost", Addr: "10.0.0.9:7000"})
+				_ = enc.Encode(delta{{ID: "ghost", Addr: "10.0.0.9:7000", Entries: []Entry{
+					{Key: "proxy_addr", Value: "10.0.0.9:8000", Version: 1}, {Key: "endpoint:g", Value: "1", Version: 2}}}})
+				_ = enc.Encode(digest{{ID: "ghost", Addr: "10.0.0.9:7000", Version: 2}, {ID: "third", Addr: "10.0.0.8:7000", Version: 7}})
+				out.JoinLen = req.Len()
+				b = req.Bytes()
+				if hc.JoinCut < len(b) {
+					b = b[:hc.JoinCut]
+				}
+			}
 			go func() {
 				_ = c1.SetDeadline(time.Now().Add(2 * time.Second))
 				_, _ = c1.Write(b)
+				if hc.JoinCut > 0 && hc.JoinCut < out.JoinLen {
+					// the peer goes away in the middle of its request
+					c1.Close()
+					return
+				}
 				buf := make([]byte, 65536)
 				for {
-					if _, err := c1.Read(buf); err != nil {
+					n, err := c1.Read(buf)
+					if n > 0 {
+						out.Replied = true
+					}
+					if err != nil {
 						break
 					}
 				}
@@ -201,6 +231,9 @@ func vhRunHostile(hc vhHostile) (out vhHostileOut) {
 	}
 	ownAfter, _ := json.Marshal(vhDumpView(me, "me"))
 	out.OwnSame = string(ownBefore) == string(ownAfter)
+	me.state.mu.Lock()
+	out.Known = len(me.state.nodes) - 1
+	me.state.mu.Unlock()
 	if !hc.Stream && len(b) >= 2 {
 		func() {
 			defer func() { _ = recover() }()
